@@ -20,8 +20,8 @@ RULE = ("(a) form: allocate_code(n), n=0..8, called at once / after the welcome 
         "the three code calls. Non-trivial/distinct = distinct (sub-workload, input) tuples.")
 ASSUMPTIONS = ["os.urandom itself is uniform (quality of the OS generator is out of scope)",
                "unicode decimal digits count as numeric (client and server both use \\d); only U+0020 is a space"]
-FLOORS = {"quick": {"entropy_draws_checked": 9000, "form_codes": 60, "rejections": 600, "completions_checked": 3000, "code_call_sequences": 100, "out_of_order_helper_calls": 40},
-          "thorough": {"entropy_draws_checked": 9000, "form_codes": 1500, "rejections": 60000, "completions_checked": 100000, "code_call_sequences": 3000, "out_of_order_helper_calls": 1500}}
+FLOORS = {"quick": {"entropy_draws_checked": 9000, "form_codes": 60, "rejections": 600, "completions_checked": 3000, "code_call_sequences": 100, "out_of_order_helper_calls": 40, "codes_entered_by_completion": 100},
+          "thorough": {"entropy_draws_checked": 9000, "form_codes": 1500, "rejections": 60000, "completions_checked": 100000, "code_call_sequences": 3000, "out_of_order_helper_calls": 1500, "codes_entered_by_completion": 3000}}
 NAMEPLATES = ["1", "7", "42", "999", "1000", "123456789", "007", "0", "00", "٣", "４２"]
 
 
@@ -399,6 +399,38 @@ def run_entry(spec):
                 if why:
                     viol.append({"key": "C19/entry/completed-code-not-allocatable", "msg": "typed %r -> %r: %s" % (typed, full, why), "witness": wit})
                 chosen = full
+    # TAB-through: the peer allocated a code of k words; the user types the first letters of each word, takes the
+    # offered completion that continues towards that word, adds the hyphen where the completion left it out, and
+    # presses Enter after the last word. What has been entered must be the peer's code. (k = 1 is left out: entry
+    # assumes at least two words and completes a first word with a hyphen.)
+    tabbed = 0
+    for _ in range(rng.randint(1, 3)):
+        k = rng.randint(2, 5)
+        target = [rng.choice(odd_l if i % 2 == 0 else even_l) for i in range(k)]
+        line = ""
+        ok = True
+        for i, wd in enumerate(target):
+            if i > 0 and not line.endswith("-"):
+                line += "-"
+            line += wd[:rng.randint(1, len(wd))]
+            if use_inputter:
+                comps = [c[len(np_) + 1:] for c in ci._commit_and_build_completions(np_ + "-" + line)]
+            else:
+                comps = sorted(helper.get_word_completions(line))
+            want = "-".join(target[:i + 1])
+            pick = [c for c in comps if c == want or c == want + "-"]
+            checked += len(comps)
+            if not pick:
+                viol.append({"key": "C19/entry/completion-missing-for-allocatable-word", "msg": "typed %r towards %r: offered %r" % (line, want, comps[:6]), "witness": wit})
+                ok = False
+                break
+            line = pick[0]
+        if ok:
+            tabbed += 1
+            if line != "-".join(target):
+                viol.append({"key": "C19/entry/tab-through-does-not-give-the-peers-code", "msg": "peer's words %r (k=%d), entered by completion: %r" % ("-".join(target), k, line), "witness": wit})
+            else:
+                chosen = np_ + "-" + line
     # finish with an offered completion (or a plain valid code) and check the code event
     final = chosen or (np_ + "-" + rng.choice(odd_l) + "-" + rng.choice(even_l))
     try:
@@ -419,7 +451,7 @@ def run_entry(spec):
         o.close()
     sch.drain(60.0, 6000, until=lambda: all(o.closed for o in others + [b]))
     world.finish()
-    return {"violations": viol, "nontrivial": ["entry", spec["seed"], final, use_inputter], "counters": {"completions_checked": checked, "out_of_order_helper_calls": order_calls[0], "nameplate_list_shrunk": shrunk},
+    return {"violations": viol, "nontrivial": ["entry", spec["seed"], final, use_inputter], "counters": {"completions_checked": checked, "out_of_order_helper_calls": order_calls[0], "nameplate_list_shrunk": shrunk, "codes_entered_by_completion": tabbed},
             "sample": {"kind": "entry", "server_nameplates": sorted(server_nps), "final_code": final, "via": wit["via"], "completions_checked": checked}}
 
 
